@@ -14,8 +14,14 @@ import collections
 import time
 
 
+def _succ_sig(succ):
+    import hashlib
+
+    return hashlib.sha1(repr([(op, key, bool(e)) for op, key, e in succ]).encode()).hexdigest()
+
+
 def bfs(ctx, pool, roots, max_depth=None, extra=None, batch=8, audit_merged=0,
-        max_states=None, timeout=None, progress=True):
+        max_states=None, timeout=None, progress=True, audit_depth=0):
     """roots: list of (history, key).  Returns dict with states/transitions/layers/etc."""
     extra = extra or {}
     seen = {}
@@ -31,6 +37,8 @@ def bfs(ctx, pool, roots, max_depth=None, extra=None, batch=8, audit_merged=0,
     closed = False
     capped = False
     merged_samples = []
+    succsig = {}   # key -> signature of the representative's successor list (bisimulation audit)
+    hist_key = {tuple(h): k for k, h in seen.items()}
     while frontier:
         if max_depth is not None and depth >= max_depth:
             break
@@ -70,18 +78,21 @@ def bfs(ctx, pool, roots, max_depth=None, extra=None, batch=8, audit_merged=0,
             if r is None:
                 continue
             for hist, succ in zip(r["hist"], r["succ"]):
+                if audit_depth and tuple(hist) in hist_key:
+                    succsig[hist_key[tuple(hist)]] = _succ_sig(succ)
                 for op, key, expandable in succ:
                     transitions += 1
                     if key is None or not expandable:
                         continue
                     if key in seen:
-                        if audit_merged and len(merged_samples) < audit_merged:
+                        if audit_depth and depth <= audit_depth and (not audit_merged or len(merged_samples) < audit_merged):
                             merged_samples.append((tuple(hist) + (op,), key))
                         continue
                     if max_states is not None and len(seen) >= max_states:
                         capped = True
                         continue
                     seen[key] = tuple(hist) + (op,)
+                    hist_key[seen[key]] = key
                     new_frontier.append(seen[key])
         frontier = new_frontier
         layers.append(len(frontier))
@@ -90,7 +101,29 @@ def bfs(ctx, pool, roots, max_depth=None, extra=None, batch=8, audit_merged=0,
                   f"transitions {transitions}, t={time.time() - ctx.t0:.0f}s", flush=True)
         if not frontier:
             closed = True
+    audit = {"merged_histories_audited": 0, "mismatches": 0}
+    if audit_depth and merged_samples:
+        todo = [(h, k) for h, k in merged_samples if k in succsig and len(h) < (max_depth or 10 ** 9)]
+        payloads = []
+        for i in range(0, len(todo), batch):
+            p = {"kind": "expand", "histories": [h for h, _ in todo[i:i + batch]]}
+            p.update(extra)
+            p["audit"] = True
+            payloads.append(p)
+        for i, status, res in pool.imap(payloads, timeout):
+            if status != "ok" or not isinstance(res, dict) or "succ" not in res:
+                continue
+            for (h, k), succ in zip(todo[i * batch:(i + 1) * batch], res["succ"]):
+                audit["merged_histories_audited"] += 1
+                if _succ_sig(succ) != succsig[k]:
+                    audit["mismatches"] += 1
+                    if audit["mismatches"] <= 5:
+                        ctx.internal("bisimulation audit: history %r was merged with %r but their successor lists differ"
+                                     % (h, seen[k]))
+        if progress:
+            print(f"  [bfs] bisimulation audit: {audit}", flush=True)
     return {
+        "audit": audit,
         "states": len(seen), "transitions": transitions, "layers": layers,
         "max_depth": depth, "closed": closed and not capped, "capped": capped,
         "stats": dict(stats), "seen": seen, "merged_samples": merged_samples,
